@@ -125,10 +125,13 @@ define(
      'the share against all geos in the data, design_within_constraints uses '
      'the share against the admitted geos'],
     'All six constraint families are proved at the exhaustive push site '
-    '(inclusive size bounds and geo ratio from the size generators, share, '
-    'volume ratio and budget from the path conditions) and for '
-    'design_within_constraints (exact characterisation); the greedy search is '
-    'checked by the bounded run-time contract.',
+    '(inclusive size bounds and geo ratio from the exact size generators, '
+    'share, volume ratio and budget from the path conditions), sizes / geo '
+    'ratio / volume ratio / share / budget at the greedy push site (final '
+    'filter), and design_within_constraints is characterised exactly; no '
+    'design is skipped by the exhaustive search for a volume ratio or budget '
+    'that is within the inclusive bounds.  Both share readings on real runs: '
+    'bounded run-time contract.',
     'DESIGN.md section 7, C02',
     'Proof part modulo ledger/engine; bounded part not counted as proved.')
 
@@ -262,9 +265,13 @@ define(
     [mm(['design_within_constraints', 'greedy_search'])],
     ENGINE_TRUST,
     [],
-    'Bounded run-time contract: greedy designs lie in the brute-force feasible '
-    'set and never beat the exhaustive optimum; the feasibility predicate of '
-    'the greedy final filter (design_within_constraints) is proved exact.',
+    'Proved: every design the greedy search pushes is legal (while-loop '
+    'invariant over stored and candidate groups) and passes '
+    'design_within_constraints, whose predicate is characterised exactly, '
+    'and the budget filter.  That those designs lie in the set the '
+    'exhaustive search ranks and never beat its optimum, and that greedy '
+    'returns nothing when exhaustive does, is a bounded run-time contract '
+    'against a brute-force feasible set.',
     'DESIGN.md section 7, C13',
     'Bounded; not counted as proved.')
 
